@@ -28,6 +28,7 @@ type ReadOpts struct {
 }
 
 type ReadResult struct {
+	Nfc   *iso7816.NfcSession // the session, usable for further exchanges after the read
 	Doc   *document.DocumentEx
 	Err   error
 	Panic any
@@ -58,12 +59,12 @@ func Read(p *perso.Perso, o ReadOpts) (res ReadResult) {
 	old := rand.Reader
 	rand.Reader = tr
 	defer func() { rand.Reader = old }()
+	nfc := iso7816.NewNfcSession(p.Chip)
 	defer func() {
 		if r := recover(); r != nil {
-			res.Panic, res.Stack = r, string(debug.Stack())
+			res.Panic, res.Stack, res.Nfc = r, string(debug.Stack()), nfc
 		}
 	}()
-	nfc := iso7816.NewNfcSession(p.Chip)
 	if o.MaxLe > 0 {
 		nfc.SetMaxLe(o.MaxLe)
 	}
@@ -91,8 +92,10 @@ func Read(p *perso.Perso, o ReadOpts) (res ReadResult) {
 	if err != nil {
 		return ReadResult{Err: fmt.Errorf("password: %w", err)}
 	}
+	res.Nfc = nfc
 	doc, _, rerr := rd.ReadDocument(pass, nil, nil)
-	return ReadResult{Doc: doc, Err: rerr}
+	res.Doc, res.Err = doc, rerr
+	return res
 }
 
 // Verify runs the offline verifier on a serialised document.
